@@ -449,6 +449,12 @@ def cases(thorough: bool) -> List[dict]:
                 for ident in ("CIRCUIT_1", "R{R=1}(R{R=2}C{C=1e-3})", "Tlm{X_1=[R{R=2:a}],L=2}"):
                     s = ident + (":" + ",".join(f"{k}={kw[k]!r}" for k in order) if order else "")
                     out.append({"cmd": "identity", "spec": s, "ident": ident, "kw": kw})
+    # other spellings of the numbers (what str()/repr() print for small floats, exponent notation, explicit sign, no leading zero)
+    for key, spellings in (("noise", ["2.5e-1", "2.5E-1", "25e-2", "1e-05", "5e-1", ".25", "+0.25", "0.250"]), ("log_min_f", ["-1.5e0", "-15e-1", "-5e-1"]),
+                           ("log_max_f", ["4.5e0", "45E-1", "2.5e0"]), ("drift", ["1.5e0", "15e-1"])):
+        for sp in spellings:
+            for ident in ("CIRCUIT_1", "R{R=1}(R{R=2}C{C=1e-3})"):
+                out.append({"cmd": "identity", "spec": f"{ident}:{key}={sp},seed=3", "ident": ident, "kw": {key: float(sp), "seed": 3}})
     for bad in ("CIRCUIT_1:noise", "CIRCUIT_1:noise=", "CIRCUIT_1:bogus=1", "CIRCUIT_1:seed=1.5", "CIRCUIT_1:noise=abc", "CIRCUIT_1:noise=1,,seed=2"):
         out.append({"cmd": "identity", "spec": bad, "malformed": True})
     return out
@@ -462,7 +468,7 @@ def run(ctx) -> None:
                 "to files, --average; circuit --simulate: 6 CDCs x 2 frequency ranges x points per decade x plot type (plotted data sets captured by "
                 "wrapping the plot functions); fit: 2 circuits x method/weight pairs x num-refinements {0,1} x running-count x 3 formats; drt: tr-nnls "
                 "(2 modes / lambda modes) and lm x formats x filters; mock specifiers: every subset of the six keys in two (all, for <= 3 keys in "
-                "thorough) orders on three identifiers, and malformed specifiers. Oracle: the corresponding API call with the same settings in "
+                "thorough) orders on three identifiers, 16 alternative spellings of the numeric values (exponent notation, sign, no leading zero), and malformed specifiers. Oracle: the corresponding API call with the same settings in "
                 "the same process (csv exact, json to its 10 printed decimals, md to the printed digits).")
     ctx.exhaustive = True
     ctx.assumptions = ["commands run in-process (three sub-process runs are left to the repository's own CLI tests)", "fit/drt are deterministic for the methods used"]
